@@ -152,3 +152,9 @@ Proof.
   intros c g t f Hl Hr. unfold pad_run. rewrite Hl, Hr. rewrite gen_pad_needed.
   destruct (Qltb (span_sl c (Fib g :: t)) (c_pad c)); reflexivity.
 Qed.
+
+(* ------------------------------------------------------------------ prev_node_generator / next_node_generator *)
+(* two neighbours x -> y of a line are in one span (no break between them) exactly when the backward walk from y steps
+   on x and the forward walk from x steps on y *)
+Theorem gen_span_link : forall x y, g_prev_link x y = negb (brk x y) /\ g_next_link y x = negb (brk x y).
+Proof. intros [f|n q|a] [g|m r|b]; split; reflexivity. Qed.
